@@ -139,3 +139,12 @@ pub fn mirror(a: &Args) {
     let out = rt.block_on(ractor_cluster::node::node_session::verif_probe::verif_mirror(&have, a.u64("enrolled") == 1, a.str("kind"), &list));
     println!("out={}", out.replace('=', "~"));
 }
+
+/// session_announce advertised=<1|2 list> remotable=<0|1,0|1> event=<Spawn1|Terminate2|Join12|Leave-|..>
+pub fn announce(a: &Args) {
+    let adv: Vec<u64> = a.list_u128("advertised").iter().map(|x| *x as u64).collect();
+    let rem: Vec<bool> = a.list_u128("remotable").iter().map(|x| *x == 1).collect();
+    let rt = tokio::runtime::Builder::new_current_thread().enable_time().build().unwrap();
+    let out = rt.block_on(ractor_cluster::node::node_session::verif_probe::verif_announce(&adv, &rem, a.str("event")));
+    println!("out={}", out.replace('=', "~"));
+}
